@@ -64,6 +64,7 @@ G0 == [ sc      |-> "none",
         taken   |-> <<>>,      \* version set -> rows visible when s3db_version() returned it (C11)
         attr    |-> <<>>,      \* client -> [deadline, write_time] expected from s3db_conn
         lastcut |-> <<>>,      \* client -> cutoff of its last successful vacuum
+        vgone   |-> {},        \* versions removed from root/merged/ (only a vacuum does that)
         stepdel |-> <<>>,      \* client -> version tokens it DELETEd during the current API call
         reachb  |-> <<>>,      \* version token -> nodes it reached at the last `reach` tagged "before"
         txins   |-> <<>>,      \* client -> keys it INSERTed since BEGIN (or in the current autocommit statement)
@@ -160,7 +161,7 @@ OnS3(e) ==
             ELSE IF e.op = "DELETE" /\ e.res = "ok" /\ e.cls = "cur"
             THEN [g EXCEPT !.cur = @ \ {e.name}, !.stepdel = Put(@, c, Get(@, c, {}) \cup {<<"cur", e.name>>})]
             ELSE IF e.op = "DELETE" /\ e.res = "ok" /\ e.cls = "mrg"
-            THEN [g EXCEPT !.mrg = @ \ {e.name}, !.stepdel = Put(@, c, Get(@, c, {}) \cup {<<"mrg", e.name>>})]
+            THEN [g EXCEPT !.mrg = @ \ {e.name}, !.vgone = @ \cup {e.name}, !.stepdel = Put(@, c, Get(@, c, {}) \cup {<<"mrg", e.name>>})]
             ELSE g
       ro == Get(g.cmode, c, "rw") \in {"ro", "hist"}
   IN [g2 |-> g1,
@@ -230,7 +231,11 @@ OnOpenDone(e) ==
       \* C03: a final open of the quiescent bucket contains every acknowledged commit
       v7 == IF Has(e, "tag") /\ e.tag = "final" /\ ~(FactsOfVersions(g.acked) \subseteq facts)
             THEN VAll({"C03", "C19"}, "_EventuallyContained", e, [missing |-> FactsOfVersions(g.acked) \ facts, versions |-> vers]) ELSE {}
-  IN [g2 |-> g2, v |-> v1 \cup v2 \cup v3 \cup v4 \cup v5 \cup v6 \cup v7]
+      \* C19: a refresh keeps everything the connection itself had already seen or committed (whatever the other
+      \* threads do meanwhile): no serial order of the connections loses a connection's own committed statements
+      v8 == IF Has(e, "refresh") /\ ~(Get(g.cfacts, c, {}) \subseteq facts)
+            THEN V("C19", "C19_RefreshKeepsOwn", e, [missing |-> Get(g.cfacts, c, {}) \ facts, versions |-> vers]) ELSE {}
+  IN [g2 |-> g2, v |-> v1 \cup v2 \cup v3 \cup v4 \cup v5 \cup v6 \cup v7 \cup v8]
 
 OnStmt(e) ==
   LET c == e.c
@@ -389,7 +394,11 @@ OnKVDump(e) ==
   LET c == e.c IN
   IF e.outcome # "ok"
   THEN \* a named version that vacuum reclaimed may be unreadable; one that is still in the bucket must not be
-       [g2 |-> g, v |-> IF e.has_only /\ ~(Range(e.only) \subseteq (g.cur \cup g.mrg)) THEN {} ELSE Unexpected(e, "open of named versions")]
+       \* (a version that is in neither directory although no vacuum removed it has been LOST: C11)
+       [g2 |-> g, v |-> IF e.has_only /\ (Range(e.only) \cap g.vgone # {}) THEN {}
+                        ELSE IF e.has_only /\ ~(Range(e.only) \subseteq (g.cur \cup g.mrg))
+                        THEN VAll({"C11", "C04", "C14"}, "_NamedVersionLost", e, [only |-> e.only, err |-> e.err, current |-> g.cur])
+                        ELSE Unexpected(e, "open of named versions")]
   ELSE
   LET only == Range(e.only)
       rows == DumpRows(e.entries)
